@@ -126,6 +126,8 @@ func (s *Streamer) parseEvents(ctx context.Context, events <-chan replication.Bi
 		next := pos
 		tran := newTransaction(now, next, int64(ev.Timestamp()), tranEvents)
 		if err = s.sendTransaction(tran); err != nil {
+			// the transaction was not accepted: keep the position in front of it
+			pos = now
 			return fmt.Errorf("sendTransaction error: %v", err)
 		}
 		tranEvents = nil
